@@ -114,7 +114,8 @@ PLANS = {
         module='RucteProps.C01',
         theorems=[],
         runs=[dict(suite='parse', mix='examples,text,structured', n=dict(quick=4000, thorough=200000), projection='body',
-                   tags=['C01'], literal_oracle=True)],
+                   tags=['C01'], literal_oracle=True),
+              dict(suite='e2e', n=dict(quick=60, thorough=1500), projection='identity', tags=['C01'])],
         correspondence='syntax tree of the parse and the body of the generated code vs Ructe.template / Ructe.writeRust; every printed text literal is decoded by the Lean model of rustc\'s literal lexer and compared with the text node',
         rule='every ASCII code point except @{} alone / at the start / middle / end of a run, at 7 nesting positions; random text over quotes, backslashes, CR/LF, NUL, controls, multi-byte scalars, escape look-alikes, the three escapes, comments; structured templates with their documented tree; non-trivial = distinct accepted syntax trees',
         assumptions=['rustc lexes literals as the Rust Reference says (modelled by decodeStrLit / decodeByteStrLit; rustc itself is the judge in the e2e runs)'],
@@ -269,6 +270,41 @@ PLANS = {
         level_text='Theorems static_name_total (lookup and insertion mangle alike: every added file is found) and static_name_never_wrong (a hit has the identifier of the query) over the model; tie + oracle through add_sass_file with the real rsass.',
         level_note='Trusted: Lean kernel; hand-written model; rsass is opaque. Known finding: a non-member whose identifier equals a member\'s resolves to that member.',
         design_ref='DESIGN.md §6 C20',
+    ),
+    'C03': dict(
+        module='RucteProps.C03',
+        theorems=[],
+        runs=[dict(suite='e2e', n=dict(quick=150, thorough=3000), projection='identity', tags=['C03']),
+              dict(suite='parse', mix='structured,examples', n=dict(quick=1500, thorough=50000), projection='body', tags=['C03'])],
+        correspondence='bytes written by the rustc-compiled generated functions vs Ructe.renderL (specification semantics under the mini-Rust Sem) of the model\'s parse; syntax tree and body code of structured templates vs the model',
+        rule='typed template programs: 1..5 templates per program in up to 3 module levels, acyclic calls with 0..3 Content blocks (empty / comment-only / nested directives and calls), if / else-if chains / if-let / for over slices, tuples (& patterns), struct destructuring, ranges, enumerate / match with 2..3 arms, every relational operator, negation, &&, ||; 3 argument sets per program; every rendering re-run under fault sinks (failure at every byte offset for renderings up to 48 bytes, sampled beyond; chunk sizes 1 / 3 / 7 / unlimited; Interrupted every 2nd / 5th call); non-trivial = distinct renderings + distinct accepted syntax trees',
+        assumptions=['user fragments are pure and infallible', 'the mini-Rust evaluator (RucteModel/MiniRust.lean) agrees with rustc on the generated fragment language (validated by this run)'],
+        level_text='Theorems exec_spec (emitted statements against every sink = specification rendering), render unfolding lemmas for if / else-if / for / match, else-if flattening; tie: rustc-compiled code vs the Lean rendering on generated typed programs; structural oracle (documented tree) on the parser.',
+        level_note='Trusted: Lean kernel; hand-written model; print : IR -> text is validated by rustc runs, not proved; rustc.',
+        design_ref='DESIGN.md §6 C03',
+    ),
+    'C04': dict(
+        module='RucteProps.C04',
+        theorems=[],
+        runs=[dict(suite='e2e', n=dict(quick=150, thorough=3000), projection='identity', tags=['C04'], args=['--layout'])],
+        correspondence='as C03, on programs with calls and Content blocks across modules (templates printed with random layouts)',
+        rule='typed template programs: 1..5 templates per program in up to 3 module levels, acyclic calls with 0..3 Content blocks (empty / comment-only / nested directives and calls), if / else-if chains / if-let / for over slices, tuples (& patterns), struct destructuring, ranges, enumerate / match with 2..3 arms, every relational operator, negation, &&, ||; 3 argument sets per program; every rendering re-run under fault sinks (failure at every byte offset for renderings up to 48 bytes, sampled beyond; chunk sizes 1 / 3 / 7 / unlimited; Interrupted every 2nd / 5th call); non-trivial = distinct renderings',
+        assumptions=['user fragments are pure and infallible', 'module name resolution is rustc\'s (the generated crate compiles or the check reports it)'],
+        level_text='Theorems render_call / closure semantics in Ructe.renderS (block rendered with the caller\'s variables at the callee\'s position) + exec_spec; tie: rustc-compiled call graphs across sub-directory modules vs the Lean rendering.',
+        level_note='Trusted: Lean kernel; hand-written model; rustc.',
+        design_ref='DESIGN.md §6 C04',
+    ),
+    'C14': dict(
+        module='RucteProps.C14',
+        theorems=[],
+        runs=[dict(suite='e2e', n=dict(quick=150, thorough=3000), projection='identity', tags=['C14']),
+              dict(suite='html', n=dict(quick=5000, thorough=200000), projection='identity', tags=['C14'])],
+        correspondence='compiled behaviour under fault-injecting sinks (inside the generated main.rs) and the escaping writer under scheduled sinks vs Esc.toHtmlDisplay / Ructe.execL',
+        rule='typed template programs: 1..5 templates per program in up to 3 module levels, acyclic calls with 0..3 Content blocks (empty / comment-only / nested directives and calls), if / else-if chains / if-let / for over slices, tuples (& patterns), struct destructuring, ranges, enumerate / match with 2..3 arms, every relational operator, negation, &&, ||; 3 argument sets per program; every rendering re-run under fault sinks (failure at every byte offset for renderings up to 48 bytes, sampled beyond; chunk sizes 1 / 3 / 7 / unlimited; Interrupted every 2nd / 5th call); non-trivial = distinct renderings',
+        assumptions=['Display impls forward fmt::Error', 'user fragments are pure and infallible'],
+        level_text='Theorems exec_prefix / exec_err_stops / exec_schedule_irrelevant over Ructe.execL for every schedule; tie + oracle: every generated rendering re-run with a permanent failure at every byte offset under four chunking / Interrupted regimes: accepted bytes are the prefix, the injected error is returned, no write follows the failure.',
+        level_note='Trusted: Lean kernel; hand-written model of std write_all / write_fmt; rustc.',
+        design_ref='DESIGN.md §6 C14',
     ),
 }
 
@@ -679,6 +715,16 @@ def sample_reqs(res, k=6):
     return [dict(request=res['req'][i][:600], implementation=res['impl'][i][:600]) for i in range(0, n, step)][:k]
 
 
+def describe_render_req(req):
+    f = req.split(' ')
+    try:
+        progs = '\n'.join('--- ' + txt(d.split(':')[0]) + '\n' + txt(d.split(':')[1]) for d in f[1].split(';'))
+        env = ', '.join(txt(x.split('=')[0]) + '=' + x.split('=')[1] for x in f[3].split(';'))
+        return progs[:6000] + '\nENTRY ' + txt(f[2]) + '\nENV ' + env[:1500]
+    except Exception:
+        return req[:3000]
+
+
 def execute(prop, plan, ctx):
     if 'custom' in plan:
         return globals()[plan['custom']](prop, plan, ctx)
@@ -696,6 +742,15 @@ def execute(prop, plan, ctx):
         d = compare(res, r.get('projection', 'identity'))
         for x in d:
             x['suite'] = r['suite']
+        if r['suite'] == 'e2e':
+            # the Lean `render` of the same program is the specification: a compiled template that
+            # writes something else is a failure of the property itself, with the program as replay
+            for x in d:
+                oracle.append(dict(tags=r['tags'], kind='rendering-differs-from-spec', case=x['index'],
+                                   detail='compiled template wrote ' + repr(txt(x['implementation'].split(' ')[1]) if x['implementation'].startswith(('ok ', 'err ')) else x['implementation']) +
+                                   ', the specification rendering is ' + repr(txt(x['model'].split(' ')[1]) if x['model'].startswith('ok ') else x['model']),
+                                   program=describe_render_req(x['request'])))
+            d = []
         disagreements += d
         oracle += [o for o in res['oracle'] if set(o.get('tags', [])) & set(r['tags'])]
         st = res['stats']
